@@ -40,7 +40,7 @@ public:
  */
 class RecursiveSpinlock : mixins::Nonmovable<RecursiveSpinlock> {
   std::atomic_flag ready_ = ATOMIC_FLAG_INIT;
-  std::thread::id locked_thread_id_ = std::thread::id();
+  std::atomic<std::thread::id> locked_thread_id_ { std::thread::id() };
   std::uint32_t lock_count_ = 0;
 
 public:
@@ -52,11 +52,11 @@ public:
   bool try_lock() {
     const std::thread::id this_thread_id = std::this_thread::get_id();
     if (ready_.test_and_set(std::memory_order_acquire)) {
-      if (locked_thread_id_ != this_thread_id) {
+      if (locked_thread_id_.load(std::memory_order_relaxed) != this_thread_id) {
         return false;
       }
     } else {
-      locked_thread_id_ = this_thread_id;
+      locked_thread_id_.store(this_thread_id, std::memory_order_relaxed);
     }
     ++lock_count_;
     return true;
@@ -71,11 +71,12 @@ public:
    * Releases the privilege.
    */
   void unlock() {
-    if (locked_thread_id_ != std::this_thread::get_id()) {
+    if (locked_thread_id_.load(std::memory_order_relaxed)
+        != std::this_thread::get_id()) {
       return;
     }
     if (--lock_count_ == 0) {
-      locked_thread_id_ = std::thread::id();
+      locked_thread_id_.store(std::thread::id(), std::memory_order_relaxed);
       ready_.clear(std::memory_order_release);
     }
   }
